@@ -75,6 +75,10 @@ WHAT = {
     "C15-alias_validate": "deserialize_with validator that rejects every real alias table",
     "C15-normal_dispersion_check": "deserialize_with validator that rejects negative std_dev",
     "C15-hypergeo_identity_omit": "skip_serializing_if + default on sign_x (identity 1 restored as 0)",
+    "C10-tree_half_leaf": "get() leaf fast path keyed on the right child only: the node with a left child and no right child (even lengths) returns its subtotal; update() then corrupts the subtotals",
+    "C12-ball_bounded_loop": "UnitBall rejection loop bounded by `for _ in 0..48`, falling through with the last rejected point (norm up to sqrt 3)",
+    "C13-frechet_logspace": "Frechet::sample in log space, location + exp(ln(scale) - ln(-ln x)/shape): equal over the reals, f32 rounding of ln(scale) breaks the law bound for scale = 1e-20",
+    "C02-geo_powi": "Geometric::sample powi guard widened to m <= u32::MAX while the call still casts `m as i32` (negative exponent for m in [2^31, 2^32), needs p < 3.2e-10)",
 }
 WHY_MISSED = {
     "C01-exp1_tail_reuse": "Exp1 is a ziggurat primitive: its tail is C06's clause (reported there by the Exp1 tail rule); C01's references start above the primitives",
@@ -87,6 +91,8 @@ WHY_MISSED = {
     "C07-gamma_zero_retry": "the retry compares x with 0, which is scale-equivariant over the reals; only underflow of the scale breaks it (outside the claim: real arithmetic). C05 reports the new loop for the smallest shapes",
     "C08-clone_from_reuse": "the forgotten field (weight_sum) does not influence validation; the change is a purity matter (a clone that behaves differently from its source) and is reported by C14's clone_from rule",
     "C08-leftover_clamp": "exactness of the alias table is numerical and not claimed (only the validation clause and the weight sum are)",
+    "C13-frechet_logspace": "the log-space form is identical to the quantile function over the reals, so C13's identity clause confirms it; the damage is f32 rounding of ln(scale) (numerical, not claimed). The rewrite does break C07's clause — the scale no longer acts as one exact multiplication — and is reported there (ln of a dimensional value)",
+    "C10-tree_half_leaf": "the change is in `get` (the node's own weight), which `update` and the final assertion read: the tree it leaves behind is inconsistent with the weight list, which is C09's clause and is reported there (get-children: a return path that skips the left child although 2i+1 < len is possible); the descent of try_sample (C10) reads the children through `subtotal()` and is untouched",
     "C11-beta_remainder": "1 - sum of the others equals the remaining stick over the reals; the difference is rounding (not claimed)",
 }
 
